@@ -466,7 +466,9 @@ pub fn starved_by_own_acks(tr: &Trace, side: usize, probe_round: usize) -> Optio
         let queued = tr.obs.iter().filter(|o| o.side == side && o.t_ms > a && o.t_ms < b).all(|o| o.sbs > 0);
         let peer_subs = tr.subs.iter().filter(|x| x.side == 1 - side && x.t_ms >= a && x.t_ms <= b).count() as f64;
         let ack_bytes: usize = tr.ems.iter().filter(|e| e.side == side && e.t_ms > a && e.t_ms < b && matches!(e.frame, Some(Frame::AckFrame(_)))).map(|e| e.len).sum();
-        let allowed: f64 = tr.obs.iter().filter(|o| o.side == side && o.t_ms > a && o.t_ms < b).map(|o| o.probe.send_rate as f64).fold(0.0, f64::max) * dur_s;
+        // what the allowed send rate admitted over the period: the rate observed after each step, integrated over time
+        let mut allowed = 0.0f64; let mut prev_t = a;
+        for o in tr.obs.iter().filter(|o| o.side == side && o.t_ms > a && o.t_ms <= b) { allowed += o.probe.send_rate as f64 * (o.t_ms - prev_t) as f64 / 1000.0; prev_t = o.t_ms; }
         if queued && peer_subs >= dur_s && ack_bytes as f64 >= 0.5 * allowed { return Some((a, b)); }
     }
     None
